@@ -132,7 +132,7 @@ def check_dir(ctx, res, zdir, cfg, files, feats):
         for i, (o, n) in enumerate(zip(old, new)):
             if o == n:
                 continue
-            m = re.match(r"^([-ox~<>] (?:P\d )?)(.*)$", o)
+            m = re.match(r"^(- |[ox~<>] (?:P\d )?)(.*)$", o)  # a plain note has no priority: `- P5 x` starts its body with P5
             ok = False
             if m:
                 pre, rest = m.group(1), m.group(2)
@@ -166,18 +166,25 @@ def body(ctx: C.Ctx, proof: C.ProofStatus) -> C.Result:
     rng = ctx.rng
     cfg = Z.write_config(ctx.tmp / "cfg.yml")
     zdir = ctx.tmp / "z"
-    n = ctx.scale(40, 4000)
+    n = ctx.scale(80, 1200)
     # pinned witnesses of the known findings (the main stream steers around them)
     check_dir(ctx, res, zdir, cfg, {"w1.zo": "# T 2150-03-01\n\n- note without zid under a far date\n"}, {"kf_century"})
     check_dir(ctx, res, zdir, cfg, {"w2.zo": "# T\n\n- 240101 text after a date word\no P1 240102 another one\n"}, {"kf_mdate_word"})
-    for i in range(n):
+    def one(sub, r, rng2, i):
+        r.line_pairs = []
         feats = set()
-        files = gen_dir(rng, feats)
+        files = gen_dir(rng2, feats)
         for f in feats:
-            res.count(f)
-        check_dir(ctx, res, zdir, cfg, files, feats)
+            r.count(f)
+        check_dir(sub, r, sub.tmp / "z", Z.write_config(sub.tmp / "cfg.yml"), files, feats)
         if i < 2:
-            res.sample({"files": {k: v[:300] for k, v in files.items()}})
+            r.sample({"files": {k: v[:300] for k, v in files.items()}})
+        return r.line_pairs
+
+    pres, rets = C.parallel_jobs(ctx, n, one)
+    res.merge(pres)
+    for lp in rets:
+        res.line_pairs += lp or []
     # write-back correspondence: every rewritten first line vs NoteText.addZidToLine on the old line
     if proof.driver_ok and res.line_pairs:
         ms = C.model_batch([{"op": "nt.addZid", "zid": z, "line": o} for o, n, z, rel in res.line_pairs])
